@@ -9,7 +9,7 @@ from harness import core, py2lean, instantiate
 from harness.core import Outcome, f2b, b2f
 
 ID = "C18"
-LEAN_TARGETS = ["BeyondVerif.Props.C18", "BeyondVerif.Props.C18Series", "BeyondVerif.Witness.C18"]
+LEAN_TARGETS = ["BeyondVerif.Props.C18", "BeyondVerif.Props.C18Hist", "BeyondVerif.Props.C18Series", "BeyondVerif.Witness.C18"]
 THEOREMS = [
     "BeyondVerif.C18.spk_chain",
     "BeyondVerif.C18.spk_offset",
@@ -21,6 +21,13 @@ THEOREMS = [
     "BeyondVerif.C18.de403_routes",
     "BeyondVerif.C18.de403_spk_chain",
     "BeyondVerif.C18.pck_independent",
+    "BeyondVerif.C18.spk_propagator_reverse",
+    "BeyondVerif.C18.spk_propagator_either_direction",
+    "BeyondVerif.C18.spk_attached_frames",
+    "BeyondVerif.C18.spk_as_frame",
+    "BeyondVerif.C18.history_independent",
+    "BeyondVerif.C18.inplace_is_copy",
+    "BeyondVerif.C18.object_tracks_body",
     "BeyondVerif.C18.sun_distance_range",
     "BeyondVerif.C18.moon_distance_range",
     "BeyondVerif.C18.sun_state_entries",
@@ -30,21 +37,32 @@ THEOREMS = [
     "BeyondVerif.CentralDiff.central_difference_exact_quadratic",
     "BeyondVerif.C18W.two_centres_consistent",
     "BeyondVerif.C18W.two_centres_wrong",
+    "BeyondVerif.C18W.asframe_reframed_consistent",
+    "BeyondVerif.C18W.asframe_reframed_wrong",
 ]
 LEVEL_TEXT = ("Lean theorems about a model of create_frames / JplPropagator.propagate / Center.convert_to / Frame.transform (routing = the Node model of C20; "
               "jplephem segment values are a parameter): for EVERY kernel in which no body is the target of two centres, all segment values deriving from one "
               "position per body (proved to exist for every kernel grown segment by segment), every ordered pair of bodies and every fuel, the vector returned by "
               "get_orbit(a).copy(frame=b) and by re-framing a zero state vector is the position/velocity of a relative to b in m, m/s, equals the signed sum of the "
               "file's segments along a chain of kernel links, and a->b = -(b->a); for the DE403 kernel of the test data (pairs regenerated from the file each run) all "
-              "256 ordered pairs are routed (kernel decide) and return exactly that vector; independence of the PCK constants. Sun/Moon: the two series are translated "
+              "256 ordered pairs are routed (kernel decide) and return exactly that vector; independence of the PCK constants. Every public route and histories: a JplPropagator "
+              "built by hand for the reverse of a segment returns minus the direct one in all six components (spk_propagator_reverse) and, either way, position and velocity of the "
+              "first body relative to the second (spk_propagator_either_direction); conversions between any frames, kernel bodies or frames made with Orbit.as_frame/orbit2frame, add "
+              "the difference of the centres' positions, the frame made from the orbit of a body as seen from either end of its segment (a non-Earth centre) being centred on that body "
+              "(spk_attached_frames, spk_as_frame); in EVERY world - whatever objects the caller holds, however he modified them in place, whatever admissible frames he attached - a "
+              "request returns the vector the property states, a function of the kernel and the segment values at its date only (history_independent: the model, like the code, keeps no "
+              "memory between requests); orb.frame = b leaves in orb what orb.copy(frame=b) returns, still the position of its body (inplace_is_copy, object_tracks_body). Sun/Moon: the two series are translated "
               "from solarsystem.py on every run; for every T the position is distance x unit vector with the distance inside the range of its series, the velocity "
               "entries are the symmetric difference quotient of the positions, whose distance from the derivative is bounded by h^2/6 sup|f3| (general theorem, "
               "instantiated to the two steps read from the classes). The model is tied to the code by a differential correspondence on all ordered pairs of the real "
-              "kernel with and without PCK files, on synthetic kernels installed in place of the file, and on the two propagators.")
+              "kernel with and without PCK files, on synthetic kernels installed in place of the file, on the two propagators, and on histories of requests driven through the real objects "
+              "(get_orbit / get_propagator / Body.propagate / hand-made propagators in both directions of every segment, in-place frame, form and value changes of the answers, copies, "
+              "as_frame of the answers, Center.convert_to, repeated and interleaved dates and bodies) against the Lean state machine `run` fed with the same segment values.")
 LEVEL_NOTE = ("proof (partial): the first sentence of the property - agreement of the analytical series with the JPL DE ephemeris to 0.02 deg / 1e-4 (Sun), 0.7 deg / 0.5 % (Moon) - "
               "relates a formula to the contents of a binary data file; no theorem expresses it, it is exercised by the oracle only (DE403, 2000-2020 grid). "
               "R -> double gap covered only by tolerance-bounded correspondence (1e-12 SPK, 1e-10 series). Kernels where a body is the target of two centres are "
-              "excluded by hypothesis (open finding C18-two-centres, kernel-checked counter-witness). Totality (a vector IS returned) is proved for the DE403 kernel only; "
+              "excluded by hypothesis (open finding C18-two-centres, kernel-checked counter-witness); so are frames made with as_frame from an orbit that was re-framed before "
+              "(hypothesis AttOK, open finding C18-asframe-reframed, kernel-checked counter-witness). Totality (a vector IS returned) is proved for the DE403 kernel only; "
               "for arbitrary trees it rests on C20's open forest-routing obligation.")
 TECHNIQUE = ("Lean 4 proof: induction over the routed path (telescoping of potentials) on top of C20's path_valid_chain; decide on the regenerated kernel; "
              "ring/linear_combination identities on series translated from the Python AST; Mathlib calculus for the difference-quotient bound; differential correspondence")
@@ -62,12 +80,15 @@ ASSUMPTIONS = [
     "the built-in Earth centre hangs below the kernel's Earth through a zero offset (the create_frames epilogue); modelled by identifying the two",
     "segments are of the position-only type (len(pos) == 3: velocity in km/day divided by 86400); the len(pos) == 6 branch of propagate is not modelled (no such segment in DE kernels)",
     "create_frames is called once per process (the harness runs each configuration in its own process)",
+    "frames made with as_frame get names no kernel body has (Fresh), each name used once per process (re-using a name overwrites the class attribute <name>_to_<parent>; not modelled)",
+    "in-place changes of form (orb.form = 'spherical') do not move the point an object represents: they are applied to the real objects and skipped in the model (compared at 1e-8 afterwards)",
     "velocity_error_at_steps takes the position coordinate as a function of uniform time; the scale's Julian century is not exactly uniform in UTC (UT1, TDB periodic terms: < 1e-8 relative)",
 ]
 NOT_COVERED = [
     "agreement of the analytical Sun and Moon series with the JPL DE ephemeris (0.02 deg, 1e-4; 0.7 deg, 0.5 %): formula vs binary data file - oracle only (DE403 2000-2020)",
     "a bound on the third derivative of the two series (needed to turn velocity_error_at_steps into a number): oracle only (numerical third differences)",
     "dates outside the span of the kernel (jplephem raises) and kernels with several time-sliced segments for one (center, target) pair",
+    "Ephem.as_frame (interpolated offsets) and the QSW/TNW orientations of orbit2frame (C02); jpl.get_body(name) without PCK files raises UnknownBodyError for every name (no vector is returned; the route Body.propagate is exercised through get_frame(name).center.body, and through get_body when PCK files are configured)",
 ]
 OPEN = [
     "totality for arbitrary tree kernels (a path is always found): proved by decide for the DE403 kernel, otherwise inherited from C20's open forest_routes_exact",
@@ -78,6 +99,9 @@ RULE = ("correspondence: every ordered pair of the 16 bodies of de403_2000-2020.
         "{get_orbit(a).copy(frame=b), zero state vector re-framed} x {with, without PCK files} and random synthetic tree kernels (2-8 bodies, rooted and arbitrarily "
         "oriented, random order) installed in place of the file, real code vs the compiled Lean model fed with the same jplephem segment values (rtol 1e-12, same error kinds); "
         "Sun/Moon propagate vs the translated series + difference quotient at 1950-2050 dates (rtol 1e-10); non-trivial = a != b; distinct = distinct (kernel, op, a, b, date). "
+        "histories: per configuration one exhaustive family (every segment through a hand-made propagator in both directions; the frame made from the orbit of every body against every "
+        "body both ways; every body asked twice at one date with an in-place conversion of the first answer in between) and random histories of 36 requests over 1-3 dates, in both the "
+        "correspondence (vs the Lean `run`, 1e-11 of the terms summed) and the oracle (vs the segments chained in the harness, 4e-12; 1e-8 after a change of form). "
         "oracle: the same calls against chaining the segments directly with jplephem (1e-12 of the summed magnitudes), antisymmetry, TDB argument, bit-identity with/without PCK, "
         "synthetic kernels; Sun/Moon vs DE403 at the property's accuracies, velocity vs derivative of the position within the theorem's bound")
 
@@ -157,7 +181,7 @@ def env(pck=True, fake=None):
     holds exactly one configuration; the other ones run in worker processes (see `collect`).
     `fake` = [[center, target, A(3), B(3)], ...] installs a synthetic kernel instead of the file (worker only)."""
     if _ENV:
-        if _ENV["pck"] != pck or fake is not None:
+        if _ENV["pck"] != pck or fake != _ENV["fake"]:
             raise RuntimeError("one kernel configuration per process")
         return _ENV
     from beyond.config import config
@@ -174,7 +198,7 @@ def env(pck=True, fake=None):
     ids = sorted({i for p in pairs for i in p})
     names = {i: target_names.get(i, "Unknown").title().replace(" ", "") for i in ids}
     segs = jpl.Bsp().pairs
-    _ENV.update(pck=pck, jpl=jpl, pairs=pairs, ids=ids, names=names, segs=segs,
+    _ENV.update(pck=pck, fake=fake, jpl=jpl, pairs=pairs, ids=ids, names=names, segs=segs,
                 span=(max(s.start_jd for s in segs.values()), min(s.end_jd for s in segs.values())))
     return _ENV
 
@@ -301,19 +325,29 @@ def collect_here(pck, dates, eme=True, fake=None):
             "span": list(e["span"]), "masses": {str(i): float(e["jpl"].get_frame(e["names"][i]).center.body.mass) if e["names"][i] in e["jpl"]._propagator_cache else None for i in e["ids"]}}
 
 
-def collect(pck, dates, eme=True, fake=None):
-    """same as collect_here; the configuration that is not the one of this process runs in a worker process"""
+def collect(pck, dates, eme=True, fake=None, hist=None):
+    """same as collect_here; the configuration that is not the one of this process runs in a worker process.
+    hist = {"seed", "nrandom", "nops"}: also run histories of requests in that process (after the stateless sweep)"""
     if fake is None and (not _ENV or _ENV["pck"] == pck):
-        return collect_here(pck, dates, eme)
-    envv = dict(os.environ)
-    envv["PYTHONPATH"] = core.VERIF + os.pathsep + core.REPO + os.pathsep + envv.get("PYTHONPATH", "")
-    envv["VERIF_REPO"] = core.REPO
-    envv.setdefault("PYTHONWARNINGS", "ignore")
-    p = subprocess.run([sys.executable, "-m", "harness.props.C18", "--worker"], input=json.dumps({"pck": pck, "dates": dates, "eme": eme, "fake": fake}),
-                       capture_output=True, text=True, cwd=core.VERIF, env=envv, timeout=3000)
-    if p.returncode != 0:
-        raise RuntimeError("C18 worker failed: " + p.stderr[-800:])
-    return json.loads(p.stdout.split("\n@@RESULT@@\n", 1)[1])
+        res = collect_here(pck, dates, eme)
+        if hist:
+            res["hist"] = histories_here(env(pck), hist["seed"], hist["nrandom"], hist["nops"], dates)
+        return res
+    req = {"pck": pck, "dates": dates, "eme": eme, "fake": fake}
+    if hist:
+        req["hist"] = dict(hist, dates=dates)
+    return run_worker(req)
+
+
+def collect_many(jobs, par=6):
+    """[collect(**job) for job in jobs]: the configurations that need a process of their own run side by side in worker
+    processes while this process works on its own configuration"""
+    from concurrent.futures import ThreadPoolExecutor
+    here = lambda j: j.get("fake") is None and (not _ENV or _ENV["pck"] == j["pck"])
+    with ThreadPoolExecutor(max_workers=par) as ex:
+        futs = [None if here(j) else ex.submit(collect, **j) for j in jobs]
+        res = [collect(**j) if f is None else None for j, f in zip(jobs, futs)]
+        return [r if f is None else f.result() for r, f in zip(res, futs)]
 
 
 def gen_dates(rng, n, span=(2451536.5, 2459216.5)):
@@ -325,6 +359,550 @@ def gen_dates(rng, n, span=(2451536.5, 2459216.5)):
         day = rng.randint(int(lo) + 1, int(hi) - 2)
         out.append((day, round(rng.uniform(0, 86400), 6)))
     return out[:n]
+
+
+# ---------------------------------------------------------------- histories of requests on the real objects
+
+ATT_BASE = 1000000          # model code of the frames created with as_frame: ATT_BASE + running number; name "XF<n>"
+ATT_EXTRA = 14             # frames attached by the random histories of one process, on top of one per body
+_ATT = []                   # every frame attached in this process so far: [x, link, obj, cen]
+_EXH = {}                   # body code -> code of the frame attached to its orbit by the exhaustive plan
+
+
+def status_of(ex):
+    from beyond.errors import UnknownBodyError, UnknownFrameError
+    if isinstance(ex, UnknownBodyError):
+        return "unknown-body"
+    if isinstance(ex, UnknownFrameError):
+        return "unknown-frame"
+    if isinstance(ex, KeyError):
+        return "key-error"
+    if isinstance(ex, ValueError):
+        return "value-error"
+    return type(ex).__name__
+
+
+class History:
+    """drives the real objects of beyond through a history of requests and records, per request, what came back.
+    Bodies and frames are addressed by model codes: NAIF codes, ATT_BASE + n for frames made with as_frame."""
+
+    def __init__(self, e, rng, dates):
+        self.e, self.rng = e, rng
+        self.dates = [make_date(*d) for d in dates]
+        self.jd = [float(d.change_scale("TDB").jd) for d in self.dates]
+        self.rec = {"pairs": [list(p) for p in e["pairs"]], "att0": [list(a) for a in _ATT], "dates": [list(d) for d in dates], "jd": self.jd,
+                    "raw": [{f"{c}-{t}": v for (c, t), v in raw_segments(e, jd).items()} for jd in self.jd], "ops": [], "pck": e["pck"]}
+        self.objs = []       # real objects
+        self.info = []       # per object: {"frame": code, "obj":, "cen":, "k":, "loose": bool}
+
+    # ---- names
+    def fname(self, code, alias=True):
+        if code >= ATT_BASE:
+            return f"XF{code - ATT_BASE}"
+        if code == 399 and alias and self.rng.random() < 0.4:
+            return "EME2000"            # the built-in Earth-centred frame: same centre, same orientation
+        return self.e["names"][code]
+
+    def frame_arg(self, code):
+        """a frame given by name or as object, as the public API allows"""
+        from beyond.frames.frames import get_frame
+        name = self.fname(code)
+        return name if self.rng.random() < 0.6 else get_frame(name)
+
+    def out(self, tok, st, vec, **meta):
+        self.rec["ops"].append({"tok": [str(t) for t in tok], "st": st, "vec": vec, "meta": meta})
+        return st
+
+    def cart(self, o):
+        import numpy as np
+        if str(o.form) != "cartesian":
+            o = o.copy(form="cartesian")
+        return [float(x) for x in np.asarray(o)]
+
+    def push(self, o, frame, obj, cen, k, loose=False):
+        self.objs.append(o)
+        self.info.append({"frame": frame, "obj": obj, "cen": cen, "k": k, "loose": loose})
+
+    # ---- requests
+    def get(self, k, a, route=None):
+        jpl = self.e["jpl"]
+        name = self.e["names"][a]
+        routes = ["get_orbit", "get_propagator", "frame-body", "propagator-copy"]
+        if self.e["pck"] and self.e.get("fake") is None and " " not in jpl.target_names.get(a, " ").strip():
+            routes.append("get_body")
+        route = route or self.rng.choice(routes)
+        d = self.dates[k]
+        try:
+            if route == "get_orbit":
+                o = jpl.get_orbit(name, d)
+            elif route == "get_propagator":
+                o = jpl.get_propagator(name).propagate(d)
+            elif route == "propagator-copy":
+                o = jpl.get_propagator(name).copy().propagate(d)
+            elif route == "frame-body":
+                o = jpl.get_frame(name).center.body.propagate(d)
+            else:
+                o = jpl.get_body(jpl.target_names[a].title()).propagate(d)
+            if float(o.date.jd) != self.jd[k] or str(o.date.scale) != "TDB":
+                return self.out(["get", k, a], "wrong-date", None, route=route)
+            c = self.code_of(str(o.frame))
+            self.push(o, c, a, c, k)
+            return self.out(["get", k, a], "ok", self.cart(o), route=route, frame=c)
+        except Exception as ex:  # noqa: BLE001
+            return self.out(["get", k, a], status_of(ex), None, route=route)
+
+    def code_of(self, name):
+        if name == "EME2000":
+            return 399
+        if name.startswith("XF") and name[2:].isdigit():
+            return ATT_BASE + int(name[2:])
+        for code, n in self.e["names"].items():
+            if n == name:
+                return code
+        raise RuntimeError("frame without model code: " + name)
+
+    def hand(self, k, o, c):
+        """a JplPropagator built by hand: body o as seen from the frame of c, whichever way the file stores the segment"""
+        from beyond.frames.frames import get_frame
+        jpl = self.e["jpl"]
+        try:
+            prop = jpl.JplPropagator(get_frame(self.e["names"][o]).center, get_frame(self.e["names"][c]))
+            if self.rng.random() < 0.3:
+                prop = prop.copy()
+            orb = prop.propagate(self.dates[k])
+            if float(orb.date.jd) != self.jd[k] or self.code_of(str(orb.frame)) != c:
+                return self.out(["hand", k, o, c], "wrong-date-or-frame", None)
+            self.push(orb, c, o, c, k)
+            return self.out(["hand", k, o, c], "ok", self.cart(orb))
+        except Exception as ex:  # noqa: BLE001
+            return self.out(["hand", k, o, c], status_of(ex), None)
+
+    def uncurl(self, i):
+        """the spherical form is singular on the polar axis and at the origin, where a change of frame may well put the
+        object: back to cartesian before the object moves"""
+        if str(self.objs[i].form) != "cartesian":
+            self.setform(i, "cartesian")
+
+    def setframe(self, i, b):
+        self.uncurl(i)
+        try:
+            self.objs[i].frame = self.frame_arg(b)
+            self.info[i]["frame"] = b
+            return self.out(["setframe", i, b], "ok", self.cart(self.objs[i]), loose=self.info[i]["loose"])
+        except Exception as ex:  # noqa: BLE001
+            return self.out(["setframe", i, b], status_of(ex), None)
+
+    def setform(self, i, form):
+        """in-place change of form: the point represented does not move (not a request of the model)"""
+        x, y, z = self.cart(self.objs[i])[:3]
+        if form != "cartesian" and not (x * x + y * y > 1e-6 * (x * x + y * y + z * z) > 0.0):
+            return None
+        try:
+            self.objs[i].form = form
+            self.info[i]["loose"] = True
+            return self.out(["setform", i, form], "ok", self.cart(self.objs[i]), loose=True)
+        except Exception as ex:  # noqa: BLE001
+            return self.out(["setform", i, form], status_of(ex), None)
+
+    def setval(self, i, j, x):
+        if str(self.objs[i].form) != "cartesian":
+            return None
+        self.objs[i][j] = x
+        return self.out(["setval", i, j, f2b(x)], "ok", self.cart(self.objs[i]), loose=self.info[i]["loose"], value=x)
+
+    def read(self, i):
+        return self.out(["read", i], "ok", self.cart(self.objs[i]), loose=self.info[i]["loose"])
+
+    def copy(self, i, b):
+        self.uncurl(i)
+        try:
+            o = self.objs[i].copy(frame=self.frame_arg(b))
+            inf = self.info[i]
+            self.push(o, b, inf["obj"], inf["cen"], inf["k"], inf["loose"])
+            return self.out(["copy", i, b], "ok", self.cart(o), loose=inf["loose"])
+        except Exception as ex:  # noqa: BLE001
+            return self.out(["copy", i, b], status_of(ex), None)
+
+    def offset(self, k, a, b):
+        import numpy as np
+        from beyond.orbits import StateVector
+        try:
+            sv = StateVector([0.0] * 6, self.dates[k], "cartesian", self.frame_arg(a))
+            res = sv.copy(frame=self.frame_arg(b))
+            return self.out(["offset", k, a, b], "ok", [float(x) for x in np.asarray(res)])
+        except Exception as ex:  # noqa: BLE001
+            return self.out(["offset", k, a, b], status_of(ex), None)
+
+    def center(self, k, a, b):
+        from beyond.frames.frames import get_frame
+        try:
+            fa, fb = get_frame(self.fname(a)), get_frame(self.fname(b))
+            new = fb.center if self.rng.random() < 0.5 else fb.center.name
+            res = fa.center.convert_to(self.dates[k], new, fb.orientation)
+            return self.out(["center", k, a, b], "ok", [float(x) for x in res])
+        except Exception as ex:  # noqa: BLE001
+            return self.out(["center", k, a, b], status_of(ex), None)
+
+    def asframe(self, i):
+        from beyond.frames.frames import orbit2frame
+        x = ATT_BASE + len(_ATT)
+        name = f"XF{x - ATT_BASE}"
+        o = self.objs[i]
+        try:
+            if self.rng.random() < 0.5:
+                o.as_frame(name)
+            else:
+                orbit2frame(name, o)
+        except Exception as ex:  # noqa: BLE001
+            return None, self.out(["asframe", i, x], status_of(ex), None)
+        inf = self.info[i]
+        _ATT.append([x, inf["frame"], inf["obj"], inf["cen"]])
+        self.out(["asframe", i, x], "ok", self.cart(o), loose=inf["loose"])
+        return x, "ok"
+
+
+def plan_exhaustive(e, rng, dates):
+    """every segment through a hand-made propagator in both directions; the frame attached to the orbit of every body
+    that has one (created once per process, used at every date) against every body, both ways; every body asked twice
+    at the same date with an in-place conversion of the first answer in between.  One history per part and date."""
+    recs = []
+    nd = len(dates)
+    h = History(e, rng, dates)
+    for k in range(nd):
+        for c, t in e["pairs"]:
+            h.hand(k, t, c)
+            h.hand(k, c, t)
+    recs.append(h.rec)
+    targets = []
+    for c, t in e["pairs"]:
+        if t not in targets:
+            targets.append(t)
+    for d in dates:
+        h = History(e, rng, [d])
+        for a in targets:
+            if a not in _EXH:
+                if h.get(0, a, route="get_orbit") != "ok":
+                    continue
+                x, st = h.asframe(len(h.objs) - 1)
+                if st != "ok":
+                    continue
+                _EXH[a] = x
+            x = _EXH[a]
+            for b in e["ids"]:
+                h.offset(0, x, b)
+                h.offset(0, b, x)
+        recs.append(h.rec)
+    ids = e["ids"]
+    h = History(e, rng, dates)
+    for k in range(nd):
+        for n, a in enumerate(targets):
+            if h.get(k, a) != "ok":
+                continue
+            i = len(h.objs) - 1
+            b = ids[(ids.index(a) + 1 + n + k) % len(ids)]
+            if n % 3 == 2:
+                h.setform(i, "spherical")
+            h.setframe(i, b)
+            h.get(k, a)
+            h.offset(k, a, b)
+            h.read(i)
+    recs.append(h.rec)
+    for n, r in enumerate(recs):
+        r["label"] = f"exhaustive-{n}"
+    return recs
+
+
+def plan_random(h, nops):
+    """a random history: requests, in-place modifications of the answers, frames made from the answers, repeated and
+    interleaved dates and bodies"""
+    e, rng = h.e, h.rng
+    ids = e["ids"]
+    pairs = e["pairs"]
+    targets = sorted({t for _, t in pairs})
+    nd = len(h.dates)
+    mine = []                      # frames attached during this history
+    hot = []                       # (k, a) already asked: ask them again
+
+    def anyframe():
+        r = rng.random()
+        if mine and r < 0.25:
+            return rng.choice(mine)
+        if _ATT and r < 0.3:
+            return rng.choice(_ATT)[0]
+        return rng.choice(ids)
+
+    for _ in range(nops):
+        r = rng.random()
+        n = len(h.objs)
+        if r < 0.22 or n == 0:
+            if hot and rng.random() < 0.5:
+                k, a = rng.choice(hot)
+            else:
+                k, a = rng.randrange(nd), (rng.choice(targets) if rng.random() < 0.93 else rng.choice(ids))
+            h.get(k, a)
+            hot.append((k, a))
+        elif r < 0.32:
+            c, t = rng.choice(pairs)
+            if rng.random() < 0.08:
+                t = rng.choice(ids)
+            k = rng.randrange(nd)
+            if rng.random() < 0.5:
+                h.hand(k, t, c)
+            else:
+                h.hand(k, c, t)
+        elif r < 0.50:
+            h.setframe(rng.randrange(n), anyframe())
+        elif r < 0.55:
+            h.setform(rng.randrange(n), rng.choice(["spherical", "cartesian", "spherical"]))
+        elif r < 0.60:
+            i = rng.randrange(n)
+            cur = h.cart(h.objs[i])
+            j = rng.randrange(6)
+            h.setval(i, j, rng.choice([0.0, -cur[j], cur[j] * rng.uniform(0.5, 2.0), rng.uniform(-1, 1) * 1e9]))
+        elif r < 0.66:
+            h.read(rng.randrange(n))
+        elif r < 0.74:
+            h.copy(rng.randrange(n), anyframe())
+        elif r < 0.86:
+            if hot and rng.random() < 0.6:
+                k, a = rng.choice(hot)
+            else:
+                k, a = rng.randrange(nd), anyframe()
+            b = anyframe()
+            if rng.random() < 0.5:
+                a, b = b, a
+            h.offset(k, a, b)
+        elif r < 0.92:
+            h.center(rng.randrange(nd), anyframe(), anyframe())
+        elif len(_ATT) < len(targets) + ATT_EXTRA:
+            x, st = h.asframe(rng.randrange(n))
+            if st == "ok":
+                mine.append(x)
+        else:
+            # enough frames in this process (every one of them lengthens every later route search): use them
+            h.offset(rng.randrange(nd), rng.choice(_ATT)[0], anyframe())
+
+
+def histories_here(e, seed, nrandom, nops, dates, exhaustive=True):
+    """the histories of one process (one kernel configuration): the exhaustive plan and `nrandom` random ones"""
+    import random
+    rng = random.Random(f"C18-hist-{seed}")
+    recs = []
+    if exhaustive:
+        # the two ends of the span and one date inside (quick), six dates (thorough)
+        recs += plan_exhaustive(e, rng, dates[:3] if len(dates) <= 4 else dates[:6])
+    for i in range(nrandom):
+        nd = rng.randint(1, 3)
+        h = History(e, rng, [dates[rng.randrange(len(dates))] for _ in range(nd)] if rng.random() < 0.5 else gen_dates(rng, nd + 2, e["span"])[2:])
+        plan_random(h, nops)
+        h.rec["label"] = f"random-{i}"
+        recs.append(h.rec)
+    return recs
+
+
+def run_worker(req):
+    envv = dict(os.environ)
+    envv["PYTHONPATH"] = core.VERIF + os.pathsep + core.REPO + os.pathsep + envv.get("PYTHONPATH", "")
+    envv["VERIF_REPO"] = core.REPO
+    envv.setdefault("PYTHONWARNINGS", "ignore")
+    p = subprocess.run([sys.executable, "-m", "harness.props.C18", "--worker"], input=json.dumps(req),
+                       capture_output=True, text=True, cwd=core.VERIF, env=envv, timeout=3000)
+    if p.returncode != 0:
+        raise RuntimeError("C18 worker failed: " + p.stderr[-800:])
+    return json.loads(p.stdout.split("\n@@RESULT@@\n", 1)[1])
+
+
+def seq_request(rec):
+    """the request line of the Lean model for one history (requests that are not part of the model are left out)"""
+    pairs = [tuple(p) for p in rec["pairs"]]
+    toks = ["seq", str(len(pairs))] + [f"{c}-{t}" for c, t in pairs]
+    toks += [str(len(rec["att0"]))] + ["-".join(str(v) for v in a) for a in rec["att0"]]
+    toks.append(str(len(rec["raw"])))
+    for raw in rec["raw"]:
+        for c, t in pairs:
+            toks += [f2b(x) for x in raw[f"{c}-{t}"]]
+    idx = []
+    for n, op in enumerate(rec["ops"]):
+        if op["tok"][0] == "setform":
+            continue
+        toks += op["tok"]
+        idx.append(n)
+    return " ".join(toks), idx
+
+
+def spec_history(rec):
+    """what every request of a history must return according to the property: the vectors obtained by chaining the
+    file's segments directly, with no memory between the requests.  A frame made from the orbit of a body is centred on
+    that body.  Returns per request (expected vector or None, magnitude of the terms summed, tainted) where tainted marks
+    the answers that involve a frame made from a re-framed orbit (open finding C18-asframe-reframed)."""
+    pairs = [tuple(p) for p in rec["pairs"]]
+    raws = [{tuple(int(x) for x in key.split("-")): v for key, v in raw.items()} for raw in rec["raw"]]
+    body = {}       # attached frame -> the body it is centred on
+    bad = {}        # attached frames made from an orbit that was no longer in the frame of its propagator -> (link, obj, cen)
+    for x, link, obj, cen in rec["att0"]:
+        body[x] = obj
+        if link != cen:
+            bad[x] = (link, obj, cen)
+
+    def rel(k, a, b):
+        ta = a in bad or b in bad
+        extra = [0.0] * 6
+        for x in (a, b):
+            # a repaired orbit2frame reaches such a frame through link -> cen -> obj: its rounding scales with those terms
+            if x in bad:
+                link, obj, cen = bad[x]
+                for u, w in ((body.get(link, link), cen), (obj, cen)):
+                    m = chain_direct(pairs, raws[k], u, w)[1]
+                    extra = [p + q for p, q in zip(extra, m or extra)]
+        a = body.get(a, a)
+        b = body.get(b, b)
+        v, m = chain_direct(pairs, raws[k], a, b)
+        return v, (None if m is None else [p + q for p, q in zip(m, extra)]), ta
+
+    objs = []
+    res = []
+    for op in rec["ops"]:
+        t = op["tok"]
+        name = t[0]
+        if op["st"] != "ok":
+            res.append((None, None, False))
+            continue
+        if name in ("get", "hand"):
+            k, o = int(t[1]), int(t[2])
+            c = int(t[3]) if name == "hand" else op["meta"]["frame"]
+            v, m, ta = rel(k, o, c)
+            if v is None:
+                res.append((None, None, False))
+                objs.append(None)
+                continue
+            objs.append({"k": k, "frame": c, "vec": list(v), "mag": list(m), "taint": ta, "obj": o, "cen": c})
+            res.append((v, m, ta))
+        elif name in ("setframe", "copy"):
+            i, b = int(t[1]), int(t[2])
+            o = objs[i]
+            d, m, ta = rel(o["k"], o["frame"], b)
+            new = dict(o, frame=b, vec=[x + y for x, y in zip(o["vec"], d)], mag=[x + y for x, y in zip(o["mag"], m)], taint=o["taint"] or ta)
+            if name == "setframe":
+                objs[i] = new
+            else:
+                objs.append(new)
+            res.append((new["vec"], new["mag"], new["taint"]))
+        elif name == "setform":
+            o = objs[int(t[1])]
+            res.append((o["vec"], o["mag"], o["taint"]))
+        elif name == "setval":
+            o = objs[int(t[1])]
+            o["vec"] = list(o["vec"]); o["mag"] = list(o["mag"])
+            o["vec"][int(t[2])] = op["meta"]["value"]
+            o["mag"][int(t[2])] = abs(op["meta"]["value"])
+            res.append((o["vec"], o["mag"], o["taint"]))
+        elif name == "read":
+            o = objs[int(t[1])]
+            res.append((o["vec"], o["mag"], o["taint"]))
+        elif name in ("offset", "center"):
+            v, m, ta = rel(int(t[1]), int(t[2]), int(t[3]))
+            res.append((v, m, ta))
+        elif name == "asframe":
+            o = objs[int(t[1])]
+            x = int(t[2])
+            body[x] = o["obj"]
+            if o["frame"] != o["cen"]:
+                bad[x] = (o["frame"], o["obj"], o["cen"])
+            res.append((o["vec"], o["mag"], o["taint"]))
+        else:
+            raise RuntimeError("unknown request " + name)
+    return res
+
+
+def block_tol(vec, ref, mag, rel):
+    """component-wise comparison; the tolerance scales with the largest term summed in the block (position / velocity)"""
+    bad = []
+    for lo, hi in ((0, 3), (3, 6)):
+        m = max(mag[lo:hi])
+        for i in range(lo, hi):
+            if not abs(vec[i] - ref[i]) <= rel * m + 1e-300:
+                bad.append(i)
+    return bad
+
+
+def history_input(rec, n):
+    """a concrete failing input: the history up to and including request n"""
+    return {"kernel_pairs": rec["pairs"], "pck": rec.get("pck"), "label": rec.get("label"), "dates_mjd_utc": rec["dates"],
+            "frames_attached_before [x, link, obj, cen]": rec["att0"][-6:],
+            "history": [" ".join(op["tok"]) + ((" via " + op["meta"]["route"]) if "route" in op["meta"] else "") + " -> " + op["st"] for op in rec["ops"][max(0, n - 12):n + 1]]}
+
+
+def oracle_histories(out, recs, family=None):
+    """every answer of every history against the segments chained directly in the harness
+    (family: the one of the open finding when the kernel itself is outside the hypotheses of the theorems)"""
+    for rec in recs:
+        spec = spec_history(rec)
+        last_mut = "none"
+        for n, (op, (exp, mag, taint)) in enumerate(zip(rec["ops"], spec)):
+            name = op["tok"][0]
+            out.count(key=(rec.get("label"), rec["pck"], tuple(rec["pairs"][0]), n, tuple(op["tok"])), kind="hist-" + name, status=op["st"])
+            if op["st"] != "ok":
+                # the only legitimate errors: a body that is the target of no segment has no orbit; a hand-made
+                # propagator for two bodies that no segment joins
+                legit = (name == "get" and op["st"] == "unknown-body" and int(op["tok"][2]) not in {t for _, t in rec["pairs"]}) or \
+                        (name == "hand" and op["st"] == "key-error" and [int(op["tok"][3]), int(op["tok"][2])] not in rec["pairs"] and [int(op["tok"][2]), int(op["tok"][3])] not in rec["pairs"])
+                if not legit:
+                    out.fail(family or f"spk-hist-{name}-error", f"request '{' '.join(op['tok'])}' raised {op['st']}", history_input(rec, n), observed=op["st"], expected="ok")
+                continue
+            if exp is None:
+                out.fail(f"spk-hist-{name}-no-chain", "an answer for two bodies that the segments do not join", history_input(rec, n), observed=op["vec"])
+                continue
+            loose = op["meta"].get("loose", False)
+            bad = block_tol(op["vec"], exp, mag, 1e-8 if loose else 4e-12)
+            if bad:
+                if family:
+                    fam = family
+                elif taint:
+                    fam = "spk-asframe-reframed-orbit"
+                else:
+                    sub = "sign" if all(abs(op["vec"][i] + exp[i]) <= 1e-8 * max(mag) for i in bad) else ("velocity" if all(i >= 3 for i in bad) else "value")
+                    fam = f"spk-hist-{name}-{sub}-after-{last_mut}"
+                out.fail(fam, f"request '{' '.join(op['tok'])}' (request {n} of the history) does not return the chained segments (components {bad})",
+                         history_input(rec, n), observed=op["vec"], expected=exp)
+            if name in ("setframe", "setform", "setval", "asframe"):
+                last_mut = name
+
+
+def corr_histories(out, recs, reqs, meta):
+    for rec in recs:
+        line, idx = seq_request(rec)
+        reqs.append(line)
+        meta.append(("hist", rec, idx))
+        for n in idx:
+            op = rec["ops"][n]
+            out.count(key=("hist", rec.get("label"), rec["pck"], tuple(rec["pairs"][0]), n, tuple(op["tok"])), kind="hist-" + op["tok"][0], status=op["st"])
+
+
+def compare_history(out, rec, idx, rep):
+    spec = spec_history(rec)
+    parts = [x.strip() for x in rep.split("|")]
+    if len(parts) != len(idx):
+        out.fail("spk-hist-model-status", "the Lean model rejected the history", history_input(rec, len(rec["ops"]) - 1), observed=[op["st"] for op in rec["ops"]][-5:], expected=rep[:60])
+        return
+    for n, part in zip(idx, parts):
+        op = rec["ops"][n]
+        toks = part.split()
+        name = op["tok"][0]
+        if toks[0] != "ok" or op["st"] != "ok":
+            if toks[0] != op["st"]:
+                out.fail(f"spk-hist-model-status-{name}", "the real code and the Lean model end a request differently", history_input(rec, n), observed=op["st"], expected=part[:40])
+                return
+            continue
+        model = [b2f(x) for x in toks[1:]]
+        vec = op["vec"]
+        mag = [max(abs(x), abs(y), z) for x, y, z in zip(vec, model, spec[n][1] or [0.0] * 6)]
+        # same operations in the same order; a history accumulates one rounding per in-place conversion, relative to the
+        # terms that were summed (the answer itself may cancel to zero)
+        if block_tol(vec, model, mag, 1e-8 if op["meta"].get("loose") else 1e-11):
+            out.fail(f"spk-hist-model-value-{name}", f"request '{' '.join(op['tok'])}' (request {n} of the history): beyond and the Lean model fed with the same segment values differ",
+                     history_input(rec, n), observed=vec, expected=model)
+            return     # later answers of the same history inherit the difference
+        out.sample({"history": rec.get("label"), "request": " ".join(op["tok"]), "impl": vec, "model": model}, limit=6)
 
 
 # ---------------------------------------------------------------- correspondence: real code vs compiled Lean model
@@ -352,6 +930,19 @@ def gen_kernel(rng, rooted):
     return fake
 
 
+def run_driver(reqs, par=6):
+    """core.Driver().run on `par` driver processes side by side (the lines are independent requests)"""
+    from concurrent.futures import ThreadPoolExecutor
+    order = sorted(range(len(reqs)), key=lambda i: -len(reqs[i]))       # the long histories first, spread evenly
+    chunks = [order[j::par] for j in range(par)]
+    replies = [None] * len(reqs)
+    with ThreadPoolExecutor(max_workers=par) as ex:
+        for chunk, rep in zip(chunks, ex.map(lambda ch: core.Driver().run([reqs[i] for i in ch]), chunks)):
+            for i, r in zip(chunk, rep):
+                replies[i] = r
+    return replies
+
+
 def request_line(kind, a, b, pairs, raw):
     op = "orbit" if kind.startswith("orbit") else "offset"
     toks = ["spk", op, str(a), str(b), str(len(pairs))] + [f"{c}-{t}" for c, t in pairs]
@@ -374,16 +965,26 @@ def correspondence(ctx):
     rng = ctx.rng
     reqs, meta = [], []
     dates = gen_dates(rng, ctx.n(3, 16))
+    jobs, labels = [], []
     for pck in (True, False):
-        compare_rows(out, collect(pck, dates), "de403-pck" if pck else "de403-nopck", dates, reqs, meta)
+        jobs.append(dict(pck=pck, dates=dates, hist={"seed": f"k-{ctx.seed}-{pck}", "nrandom": ctx.n(10, 150), "nops": 36}))
+        labels.append("de403-pck" if pck else "de403-nopck")
     for i in range(ctx.n(8, 60)):
         rooted = i % 2 == 0
         fake = gen_kernel(rng, rooted)
         fd = gen_dates(rng, 3)[2:]
-        compare_rows(out, collect(False, fd, True, fake), ("synthetic-rooted#" if rooted else "synthetic-any#") + str(i), fd, reqs, meta)
+        jobs.append(dict(pck=False, dates=fd, eme=True, fake=fake, hist={"seed": f"k-{ctx.seed}-s{i}", "nrandom": 2, "nops": 30}))
+        labels.append(("synthetic-rooted#" if rooted else "synthetic-any#") + str(i))
+    for job, label, r in zip(jobs, labels, collect_many(jobs)):
+        compare_rows(out, r, label, job["dates"], reqs, meta)
+        corr_histories(out, r["hist"], reqs, meta)
     corr_series(out, rng, ctx.n(400, 20000))
-    replies = core.Driver().run(reqs)
-    for (label, kind, a, b, date, st, vec, pairs), rep in zip(meta, replies):
+    replies = run_driver(reqs)
+    for m, rep in zip(meta, replies):
+        if m[0] == "hist":
+            compare_history(out, m[1], m[2], rep)
+            continue
+        label, kind, a, b, date, st, vec, pairs = m
         inp = {"kernel": label, "pairs": pairs, "op": kind, "a": a, "b": b, "date_mjd_utc": date}
         toks = rep.split()
         if toks[0] != "ok" or st != "ok":
@@ -448,12 +1049,15 @@ def year_of(day):
     return int(2000 + (day - 51544) / 365.25)
 
 
-def oracle_spk(out, rng, ndates):
+def oracle_spk(out, rng, ndates, nhist):
     """every ordered pair of bodies, both public routes, with and without PCK files, against direct chaining"""
     dates = gen_dates(rng, ndates)
-    res = {True: collect(True, dates), False: collect(False, dates)}
+    seed = rng.getrandbits(32)
+    both = collect_many([dict(pck=pck, dates=dates, hist={"seed": f"o-{seed}-{pck}", "nrandom": nhist, "nops": 36}) for pck in (True, False)])
+    res = {True: both[0], False: both[1]}
     for pck in (True, False):
         r = res[pck]
+        oracle_histories(out, r["hist"])
         pairs = [tuple(p) for p in r["pairs"]]
         targets = {t for _, t in pairs}
         vecs = {}
@@ -520,12 +1124,15 @@ def oracle_synthetic(out, rng, n):
     kernels = [("fixed-two-centres", TWO_CENTRES_KERNEL)]
     for i in range(n):
         kernels.append((f"random-{i}", gen_kernel(rng, rooted=i % 2 == 0)))
+    jobs = []
     for label, fake in kernels:
         fd = gen_dates(rng, 3)[2:]
-        r = collect(False, fd, True, fake)
+        jobs.append(dict(pck=False, dates=fd, eme=True, fake=fake, hist={"seed": f"o-{label}-{rng.getrandbits(32)}", "nrandom": 2, "nops": 30}))
+    for (label, fake), r in zip(kernels, collect_many(jobs)):
         pairs = [tuple(p) for p in r["pairs"]]
         tg = [t for _, t in pairs]
         two = len(set(tg)) < len(tg)
+        oracle_histories(out, r["hist"], "spk-synthetic-two-centres" if two else None)
         for kind, a, b, k, st, vec, jd in r["rows"]:
             raw = {tuple(int(x) for x in key.split("-")): v for key, v in r["raw"][str(k)]["seg"].items()}
             inp = {"kernel_pairs": pairs, "segments_km_kmday": {f"{c}-{t}": raw[(c, t)] for c, t in pairs}, "op": kind, "a": a, "b": b}
@@ -615,7 +1222,7 @@ def oracle_series(out, rng, n):
 def oracle(ctx, widened):
     out = Outcome()
     big = widened or ctx.thorough
-    oracle_spk(out, ctx.rng, 24 if big else 4)
+    oracle_spk(out, ctx.rng, 24 if big else 4, 150 if big else 10)
     oracle_synthetic(out, ctx.rng, 40 if big else 5)
     oracle_series(out, ctx.rng, 12000 if big else 300)
     return out
@@ -628,7 +1235,12 @@ def replay(f):
 
 def _worker():
     req = json.loads(sys.stdin.read())
-    res = collect_here(req["pck"], [tuple(d) for d in req["dates"]], req.get("eme", True), req.get("fake"))
+    res = {}
+    if "dates" in req:
+        res = collect_here(req["pck"], [tuple(d) for d in req["dates"]], req.get("eme", True), req.get("fake"))
+    if "hist" in req:
+        hq = req["hist"]
+        res["hist"] = histories_here(env(req["pck"], req.get("fake")), hq["seed"], hq["nrandom"], hq["nops"], [tuple(d) for d in hq["dates"]])
     sys.stdout.write("\n@@RESULT@@\n" + json.dumps(res))
 
 
